@@ -4,7 +4,7 @@ use crate::app::compass::config::{
     config_json_extension::ConfigJsonExtensions,
 };
 use routee_compass_core::model::unit::{
-    Energy, EnergyRate, EnergyRateUnit, EnergyUnit, GradeUnit, SpeedUnit,
+    as_f64::AsF64, Energy, EnergyRate, EnergyRateUnit, EnergyUnit, GradeUnit, SpeedUnit,
 };
 use routee_compass_core::util::cache_policy::float_cache_policy::{
     FloatCachePolicy, FloatCachePolicyConfig,
@@ -68,7 +68,7 @@ fn build_battery_electric(
 
     let model_record = get_model_record_from_params(parameters, &name)?;
 
-    let battery_capacity = parameters.get_config_serde::<Energy>(&"battery_capacity", &"bev")?;
+    let battery_capacity = get_battery_capacity(parameters, &"bev")?;
     let battery_energy_unit =
         parameters.get_config_serde::<EnergyUnit>(&"battery_capacity_unit", &"bev")?;
     let starting_battery_energy = battery_capacity;
@@ -104,7 +104,7 @@ fn build_plugin_hybrid(
         &format!("charge_sustain: {}", &name),
     )?;
 
-    let battery_capacity = parameters.get_config_serde::<Energy>(&"battery_capacity", &"phev")?;
+    let battery_capacity = get_battery_capacity(parameters, &"phev")?;
     let battery_energy_unit =
         parameters.get_config_serde::<EnergyUnit>(&"battery_capacity_unit", &"phev")?;
 
@@ -121,6 +121,25 @@ fn build_plugin_hybrid(
         custom_liquid_fuel_to_kwh,
     )?;
     Ok(Arc::new(phev))
+}
+
+/// the state of charge is the battery energy over the battery capacity: a capacity of zero makes it
+/// NaN and a negative capacity turns consumption into charging, so only a positive capacity is valid
+fn get_battery_capacity(
+    parameters: &serde_json::Value,
+    parent_key: &dyn AsRef<str>,
+) -> Result<Energy, CompassConfigurationError> {
+    let battery_capacity =
+        parameters.get_config_serde::<Energy>(&"battery_capacity", parent_key)?;
+    if battery_capacity.as_f64().is_finite() && battery_capacity > Energy::ZERO {
+        Ok(battery_capacity)
+    } else {
+        Err(CompassConfigurationError::UserConfigurationError(format!(
+            "battery_capacity of {} must be a positive number, found {}",
+            parent_key.as_ref(),
+            battery_capacity
+        )))
+    }
 }
 
 fn get_model_record_from_params(
